@@ -312,6 +312,17 @@ func (w *World) c19Emit(entry, shape, outcome, detail string) {
 }
 
 // run a controller pass and classify
+var storedCondShapes = map[string][]string{
+	"none":         {"Available"},
+	"mappedFirst":  {"my.pkg/A", "Available", "Succeeded"},
+	"mappedMiddle": {"Available", "my.pkg/A", "Succeeded"},
+	"mappedLast":   {"Available", "my.pkg/A"},
+	"twoAdjacent":  {"my.pkg/A", "my.pkg/B", "Available"},
+	"twoApart":     {"my.pkg/A", "Available", "my.pkg/B"},
+	"onlyMapped":   {"my.pkg/A"},
+	"allMapped":    {"a/x", "b/y", "c/z"},
+}
+
 func (w *World) c19Pass(entry, shape, actor string, k Key) {
 	before := w.Panics
 	var p *Pass
@@ -420,6 +431,40 @@ func init() {
 				}
 			})
 			w.c19Pass("template-target-status", shape, "tm", KOT("t1"))
+		}
+		// the owner's own stored status is input of the next pass: mapped conditions (type with a "/") of an earlier
+		// pass at every position of the condition list
+		for _, shape := range sortedStr(storedCondShapes) {
+			conds := []any{}
+			for _, t := range storedCondShapes[shape] {
+				conds = append(conds, map[string]any{"type": t, "status": "True", "reason": "Stored", "message": "", "observedGeneration": int64(1),
+					"lastTransitionTime": "2024-01-01T00:00:00Z"})
+			}
+			setConds := func(k Key) {
+				w.EnvMutate("EnvSetStatus", k, map[string]any{"class": shape}, func(m map[string]any) {
+					st, _ := m["status"].(map[string]any)
+					if st == nil {
+						st = map[string]any{}
+						m["status"] = st
+					}
+					st["conditions"] = deepCopyAny(conds)
+				})
+			}
+			w.Reset("shape-stored-os-" + shape)
+			os1 := NewObjectSet("a1", []PhaseSpec{{Name: "p1", Mapped: true, Objects: []*unstructured.Unstructured{Widget("w1", 1)}}})
+			w.EnvCreate(os1)
+			w.RunPass("os", KOS("a1"))
+			w.EnvSetWidgetStatus(KW("w1"), "Ready")
+			setConds(KOS("a1"))
+			w.c19Pass("objectset-stored-conditions", shape, "os", KOS("a1"))
+			w.Reset("shape-stored-od-" + shape)
+			w.EnvCreate(NewObjectDeployment("d1", []PhaseSpec{{Name: "p1", Mapped: true, Objects: []*unstructured.Unstructured{Widget("w1", 1)}}}))
+			w.RunPass("od", KOD("d1"))
+			for _, k := range w.CRKeys("ObjectSet") {
+				w.RunPass("os", k)
+			}
+			setConds(KOD("d1"))
+			w.c19Pass("deployment-stored-conditions", shape, "od", KOD("d1"))
 		}
 		// ObjectTemplate source item shapes
 		for _, shape := range sortedStr(sourceItemShapes) {
